@@ -10,7 +10,7 @@
        present, which smgen needs anyway: it raises KeyError otherwise);
      getfirststate : transition_table[0][0]. *)
 From Coq Require Import String Ascii List Bool Arith.
-From KV Require Import Lib.TableDef.
+From KV Require Import Lib.TableDef Gen.TTModelSrc.
 Import ListNotations.
 Open Scope string_scope.
 
@@ -36,10 +36,6 @@ Fixpoint dedup_pair (l : list (string * string)) : list (string * string) :=
   | x :: r => x :: filter (fun y => negb (pair_eqb y x)) (dedup_pair r)
   end.
 
-(* the values of actionsignatures, in order: (action, event) *)
-Definition actionsignatures (t : table) : list (string * string) :=
-  dedup_pair (map (fun r => (r_act r, r_ev r)) (filter (fun r => negb (is_none (r_act r))) t)).
-
 (* the same with the key that was used before the fix: the concatenated string (kept to state what was wrong) *)
 Fixpoint dedup_concat (l : list (string * string)) : list (string * string) :=
   match l with
@@ -49,12 +45,19 @@ Fixpoint dedup_concat (l : list (string * string)) : list (string * string) :=
 Definition actionsignatures_concat (t : table) : list (string * string) :=
   dedup_concat (map (fun r => (r_act r, r_ev r)) (filter (fun r => negb (is_none (r_act r))) t)).
 
+(* the values of actionsignatures, in order: (action, event).  Which key smgen uses is read from its source on every
+   run (Gen/TTModelSrc.v, translator/ttmodel.py): the pair since the fix: commit. *)
+Definition actionsignatures (t : table) : list (string * string) :=
+  if tt_sig_key_pair
+  then dedup_pair (map (fun r => (r_act r, r_ev r)) (filter (fun r => negb (is_none (r_act r))) t))
+  else actionsignatures_concat t.
+
 Definition src_states (t : table) : list string := dedup (present (map r_src t)).
 Fixpoint mem (x : string) (l : list string) : bool :=
   match l with [] => false | y :: r => String.eqb x y || mem x r end.
 (* keys of transitionsperstate *)
 Definition tps_states (t : table) : list string :=
-  (src_states t ++ filter (fun s => negb (mem s (src_states t))) (states t))%list.
+  (src_states t ++ (if tt_tps_all_states then filter (fun s => negb (mem s (src_states t))) (states t) else []))%list.
 Definition events_of (t : table) (s : string) : list string :=
   dedup (present (map r_ev (filter (fun r => String.eqb (r_src r) s) t))).
 Definition trans_of (t : table) (s e : string) : list row := rows_for t s e.
